@@ -58,10 +58,11 @@ class PyRaise(Exception):
 class Opaque(SVal):
     """A value the engine does not model (formatted text etc.).  May flow anywhere except into a
     branch condition or an obligation."""
-    __slots__ = ("tag",)
+    __slots__ = ("tag", "pytype")
 
-    def __init__(self, tag="?"):
+    def __init__(self, tag="?", pytype=None):
         self.tag = tag
+        self.pytype = pytype
 
     def __repr__(self):
         return "Opaque(%s)" % self.tag
@@ -152,6 +153,22 @@ class HIter(object):
     def __init__(self, seq, pos=0):
         self.seq = seq
         self._pos = pos
+
+    @property
+    def pos(self):
+        return self._pos if isinstance(self._pos, SInt) else SInt(self._pos)
+
+    @property
+    def data(self):
+        return self.seq
+
+
+class HFile(object):
+    """binary file object open for reading: (data, pos)"""
+    def __init__(self, seq, pos=0):
+        self.seq = seq
+        self._pos = pos
+        self.closed = False
 
     @property
     def pos(self):
@@ -273,7 +290,7 @@ class Contract(object):
                  yield_count=None, yield_at=None, yield_post=None, loops=None, result=None, effect=None,
                  inline=False, opaque=(), note="", exc_ensures=None, modifies=(),
                  yield_seq=0, yield_encode=None, yields_eq=None, native_yields=None, native_post=None, findings=(),
-                 name=None, when=None, examples=None):
+                 name=None, when=None, examples=None, external_args=(), result_pytype=None, externals=()):
         self.target = target
         self.modname, self.qualname = target.split(":")
         self.params = params or {}
@@ -300,6 +317,9 @@ class Contract(object):
         self.findings = list(findings)
         self.name = name or target          # unique key of the contract (several contracts may share a target)
         self.when = when                    # call-site applicability: lambda over call arguments
+        self.external_args = list(external_args)
+        self.externals = list(externals)     # assumed contracts of external callees (checked natively during replay)
+        self.result_pytype = result_pytype   # python type of the unmodelled result of an external callee
         self.examples = examples            # {param: gen(config, rng, n)} domain-specific inputs for the bounded native search
 
 
@@ -769,8 +789,15 @@ class Engine(object):
             return a == b
         if isinstance(a, (str, bytes)) or isinstance(b, (str, bytes)):
             if is_sym(a) or is_sym(b):
-                if isinstance(a, SSeq) or isinstance(b, SSeq):
-                    raise Unsupported("equality of a symbolic sequence")
+                sq, cv = (a, b) if isinstance(a, SSeq) else (b, a)
+                if isinstance(sq, SSeq):
+                    if isinstance(cv, str) or sq.kind != "bytes":
+                        return False
+                    if isinstance(sq.length, int):
+                        if sq.length != len(cv):
+                            return False
+                        return sym.And(*[self.equal(sq.get(z3.IntVal(i)), cv[i]) for i in range(len(cv))]) if len(cv) else True
+                    raise Unsupported("equality of a symbolic sequence of symbolic length")
                 return False
         if not is_sym(a) and not is_sym(b):
             return a == b
